@@ -6,7 +6,7 @@
     [validate_raise] = the same with raise_errors=True; [conforms n o e s v] (model/Conform.v) is the documented
     Python <-> Avro mapping written clause by clause, independently of the validator's control flow;
     [conformsP] = conforms at some height.  Results: [Ok b] the validator returned b; [Err] another exception
-    (tuple of wrong arity under a union with tuple notation; unknown name); [OutOfFuel] fuel exhausted. *)
+    (unknown type name); [OutOfFuel] fuel exhausted. *)
 From Coq Require Import String Lia.
 From FA Require Import model.Base model.Varint model.Value model.Schema model.Utf8 model.Float model.Codec
                        model.Validate model.Write model.Read model.Conform proofs.ElabProofs.
@@ -67,17 +67,22 @@ Open Scope string_scope.
 Definition o0 : wopts := {| strict := false; strict_allow_default := false; disable_tuple := false |}.
 Definition ostrict : wopts := {| strict := true; strict_allow_default := false; disable_tuple := false |}.
 Definition dict (l : list (string * pyval)) : pyval := PDict (map (fun p => (PStr (s2b (fst p)), snd p)) l).
-(* F9: field of dict-form type {"type": "null"} absent *)
-Definition f9_schema : schema := SRecord (s2b "R") [] [mkField (s2b "a") (SAnnot [] SNull) None []].
-(* a validating record branch followed by a branch on which validation raises ValueError (3-tuple under a union) *)
+(* a dict whose "-type" entry names no record branch but which fits a map branch: validate accepts it as a map, the
+   writer only looks for the record named by the hint *)
+Definition th_schema : schema :=
+  SUnion [SRecord (s2b "A") [] [mkField (s2b "x") SInt None []]; SMap (SUnion [SInt; SString])].
+Definition th_datum : pyval := dict [("x", PInt 1); ("-type", PStr (s2b "B"))].
+(* a validating record branch followed by a branch on which validation raises (a name missing from named_schemas) *)
 Definition tv_schema : schema :=
-  SUnion [SRecord (s2b "A") [] [mkField (s2b "x") (SArray SInt) None []]; SMap (SUnion [SInt; SString])].
-Definition tv_datum : pyval := dict [("x", PTuple [PInt 1; PInt 2; PInt 3])].
+  SUnion [SRecord (s2b "A") [] [mkField (s2b "x") (SArray SInt) None []]; SMap (SRef (s2b "Missing"))].
+Definition tv_datum : pyval := dict [("x", PList [PInt 1; PInt 2; PInt 3])].
+(* (F9, repaired in e5b1421: a field of dict-form type {"type": "null"} may now be absent; regression witness below) *)
+Definition f9_schema : schema := SRecord (s2b "R") [] [mkField (s2b "a") (SAnnot [] SNull) None []].
 (* strict writer: a defaulted field omitted / an extra key *)
 Definition d_schema : schema := SRecord (s2b "R") [] [mkField (s2b "a") SInt (Some (PInt 3)) []].
 
 Theorem C10_writer_accepts_refuted :
-  (validate 9 o0 [] f9_schema (Some (dict [])) = Ok true /\ forall f, elab f o0 [] f9_schema (dict []) = WErr \/ f = O) /\
+  (validate 9 o0 [] th_schema (Some th_datum) = Ok true /\ elab 9 o0 [] th_schema th_datum = WErr) /\
   (validate 9 o0 [] tv_schema (Some tv_datum) = Ok true /\ elab 9 o0 [] tv_schema tv_datum = WErr) /\
   (validate 9 ostrict [] d_schema (Some (dict [])) = Ok true /\ forall f, elab f ostrict [] d_schema (dict []) = WErr \/ f = O) /\
   (validate 9 ostrict [] d_schema (Some (dict [("a", PInt 1); ("zz", PInt 2)])) = Ok true /\
@@ -88,7 +93,7 @@ Proof.
   assert (W : forall o s v, validate 9 o [] s (Some v) = Ok true -> (forall f, elab (S f) o [] s v = WErr) ->
             validate 9 o [] s (Some v) = Ok true /\ forall f, elab f o [] s v = WErr \/ f = O).
   { intros o s v H1 H2. split; [exact H1|]. intros [|f]; [right; reflexivity|left; apply H2]. }
-  split; [apply W; [|intros f]; vm_compute; reflexivity|].
+  split; [split; vm_compute; reflexivity|].
   split; [split; vm_compute; reflexivity|].
   split; [apply W; [|intros f]; vm_compute; reflexivity|].
   split; [apply W; [|intros f]; vm_compute; reflexivity|].
@@ -99,9 +104,10 @@ Print Assumptions C10_writer_accepts_refuted.
 (** ... and TRUE under the side condition [wdom] (model/Conform.v, clause by clause): for the default writer
     (strict = strict_allow_default = false), (1) every number under a float/double type converts -- float(int) does not
     overflow, narrowing to binary32 does not overflow under "float"; (2) a field absent without default has a type that
-    write_record recognises as nullable ("null" in field_type: the string "null", a list containing the string "null", or
-    a name containing "null") -- this excludes exactly F9; (3) at every union reached, the validator gives a verdict
-    (no foreign exception, fuel n suffices) on every branch, because the search may try branches validate never looked at.
+    write_record's _accepts_null recognises (null, dict-form null, a union with such a branch) -- by C10_absent_field_agrees
+    this is implied by validate's acceptance for schemas as parse_schema produces them; (3) at every union reached, the
+    validator gives a verdict (no foreign exception, fuel n suffices) on every branch, because the search may try branches
+    validate never looked at, and a "-type" entry of the datum names every branch the datum validates against.
     Then from some fuel on the writer elaborates the datum. *)
 Theorem C10_writer_accepts_partial : forall n o e s v f,
   strict o = false /\ strict_allow_default o = false ->
@@ -109,6 +115,14 @@ Theorem C10_writer_accepts_partial : forall n o e s v f,
   exists f0, forall f', (f0 <= f')%nat -> exists a, elab f' o e s v = WOk a.
 Proof. exact writer_accepts. Qed.
 Print Assumptions C10_writer_accepts_partial.
+
+(** write_record's test for "may be absent without default" agrees with validate (F9 repaired): for schemas as
+    parse_schema produces them (a dict form wraps no union / reference / dict form; named_schemas holds named types), a
+    type against which validate accepts None is one the writer lets be absent *)
+Theorem C10_absent_field_agrees : forall f o e t, named_env e = true -> plain_type t = true ->
+  validate f o e t (Some PNone) = Ok true -> nullok t = true.
+Proof. exact none_nullok. Qed.
+Print Assumptions C10_absent_field_agrees.
 
 (** accepted => encoded => read back: the writer's bytes decode to the value [py_of a] (the documented normalisation
     of the datum, C01), consuming exactly those bytes; [floats_ok a] is the unproved float-range side condition *)
@@ -141,14 +155,14 @@ Proof.
   unfold wr, wv, dict. cbn [map fst snd]. apply wdom_record.
   constructor; [|constructor; [|constructor; [|constructor]]]; unfold field_wdom; cbn [fname ftype fdefault]; dget; cbv iota beta.
   - split; [reflexivity|]. apply wdom_union_plain; [discriminate|].
-    constructor; [|constructor; [|constructor]]; (split; [eexists; vm_compute; reflexivity|exact I]).
+    constructor; [|constructor; [|constructor]]; (split; [eexists; split; [vm_compute; reflexivity|intros _; vm_compute; reflexivity]|exact I]).
   - split; [intros z E; injection E as <-; eexists; vm_compute; reflexivity|].
     intros b E. vm_compute in E. injection E as <-. apply wdom_float.
     + intros z E; discriminate.
     + intros b E. vm_compute in E. injection E as <-. eexists; vm_compute; reflexivity.
   - eapply wdom_array; [reflexivity|]. constructor; [|constructor; [|constructor]].
     + apply wdom_union_plain; [discriminate|].
-      constructor; [|constructor; [|constructor]]; (split; [eexists; vm_compute; reflexivity|exact I]).
+      constructor; [|constructor; [|constructor]]; (split; [eexists; split; [vm_compute; reflexivity|intros _; vm_compute; reflexivity]|exact I]).
     + eapply wdom_union_hint; [reflexivity|vm_compute; reflexivity|exact I].
 Qed.
 
@@ -162,5 +176,9 @@ Example C10_example :
   validate 9 o0 ex_env node (Some good) = Ok true /\ validate_raise 9 o0 ex_env node (Some good) = VTrue /\
   validate 9 o0 ex_env node (Some bad) = Ok false /\ validate_raise 9 o0 ex_env node (Some bad) = VRaised /\
   validate 9 ostrict ex_env node (Some good) = Ok false /\            (* the inner "next" is absent and has no default *)
-  validate 9 o0 ex_env (SUnion [SInt; SString]) (Some (PTuple [PInt 1; PInt 2; PInt 3])) = Err.
-Proof. split; [|split; [|split; [|split; [|split]]]]; vm_compute; reflexivity. Qed.
+  (* repaired defects, as regression witnesses: a tuple that is not a pair is rejected, not an exception (c8f12fc);
+     a field of dict-form null type may be absent (F9, e5b1421) *)
+  validate 9 o0 ex_env (SUnion [SInt; SString]) (Some (PTuple [PInt 1; PInt 2; PInt 3])) = Ok false /\
+  validate_raise 9 o0 ex_env (SUnion [SInt; SString]) (Some (PTuple [PInt 1; PInt 2; PInt 3])) = VRaised /\
+  validate 9 o0 [] f9_schema (Some (dict [])) = Ok true /\ elab 9 o0 [] f9_schema (dict []) = WOk (ARecord [ANull]).
+Proof. split; [|split; [|split; [|split; [|split; [|split; [|split; [|split]]]]]]]; vm_compute; reflexivity. Qed.
